@@ -32,7 +32,8 @@ def property_fails(sys, oo=None, co=None):
 
 
 def cases_for(ctx, n):
-    out = [(pc.witness_early_exit(), {"family": "witness"}), (pc.witness_real_position_skip(), {"family": "witness"})]
+    out = [(pc.witness_early_exit(), {"family": "witness"}), (pc.witness_real_position_skip(), {"family": "witness"}),
+           (pc.witness_volume_bound(), {"family": "witness"})]
     for s in pc.small_systems()[:: ctx.scale(3, 1)]:
         out.append((s, {"family": "small"}))
     while len(out) < n:
